@@ -108,3 +108,17 @@ def chi2_dof(R, n, k, mean):
 #   min E_i <= E <= max E_i;  1/S^2 = sum w_i >= w_i  =>  S <= S_i for every i;
 #   both sums are commutative reductions whose terms depend on the current element only
 #   (rule R4), hence the result does not depend on the order of the results.
+
+
+# ---- multi channel weights (multi_channel.dox; doc of multi_channel_refine_weights) ------------
+def mc_unnormalised(w, d, beta, k):
+    # alpha_i * W_i^beta
+    return mul(sel(w, k), fn('pow', sel(d, k), beta))
+
+
+def mc_prenorm(w, d, beta, minw, n, k, i):
+    # enabled channel: max(alpha_k W_k^beta / sum_i alpha_i W_i^beta, minimum weight);
+    # disabled channel (weight zero): stays zero
+    nw = mc_unnormalised(w, d, beta, k)
+    tot = ('sum', i, ZERO, n, mc_unnormalised(w, d, beta, i))
+    return ite(T.cmp('==', nw, ZERO), ZERO, fn('fmax', div(nw, tot), minw))
